@@ -593,8 +593,10 @@ func (rl *refLexer) checkSymbols(cg *grammar.Grammar) string {
 // plausible is the domain pre-filter used while sampling the enumeration (yield only: whatever the
 // compiler still rejects is counted as rejected): the grammar is inside the modelled domain in
 // rune mode without folding and no two candidates of the top priority accept the same text.
-func (g *lexGrammar) plausible() bool {
-	rl, err := newRefLexer(g, 0)
+func (g *lexGrammar) plausible() bool { return g.plausibleUnder(0) }
+
+func (g *lexGrammar) plausibleUnder(mask int) bool {
+	rl, err := newRefLexer(g, mask)
 	if err != nil {
 		return false
 	}
